@@ -6,16 +6,21 @@ from vlib.driver import Outcome, newdir
 
 PROPERTY = 'C02'
 LEVEL = 'exploration'
-TECH = 'model-based PBT: generated multi-connection programs with generator-owned interleaving vs an exact MVCC snapshot model'
+TECH = ('model-based PBT: generated multi-connection programs with generator-owned interleaving vs an exact MVCC snapshot model; '
+        'generated thread programs x generated schedules under a deterministic cooperative scheduler with history oracles')
 RULE = ('cases = generated programs for 2-3 connections on one DB (file/mapping/demo storage, pool size 1-2) executed in one '
         'thread with the interleaving chosen by the generator: begin, read, write, increment, commit, abort, close+reopen from '
         'the pool, cacheMinimize, readCurrent; oracle: every read returns the value of the object in the snapshot fixed at the '
         'connection\'s last boundary overlaid with its own writes (values are unique write ids, so stale or future values '
         'are identified exactly), whether served from the cache or the storage; after a boundary the snapshot includes every '
         'commit completed before it; evaluations = steps; non-trivial = a read of an object for which another connection '
-        'committed a newer revision after the reader\'s boundary; distinct by program hash')
-ASSUMPTIONS = ['thread schedules are not explored by this check: interleavings are at operation granularity in one thread '
-               '(DESIGN section 4 and 10)']
+        'committed a newer revision after the reader\'s boundary'
+        "; half of the cases are THREAD cases: 2-4 real threads (committers, readers) on one DB run under the harness's deterministic scheduler (vlib/sched.py: one run token, yield points at every ZODB lock/condition operation, every file operation of the storage and, in half of them, every source line of the commit/poll/load functions); the schedule is generated (dense random choices, or few targeted preemptions 'at the n-th release/acquire/file/line point hand over to thread k'); oracles over the event log and the final storage: every read is the revision current at the reading connection's snapshot bound (serial < bound <= tid of the next revision), all reads of one transaction were current together, the snapshot is not older than any commit that had returned before the boundary began, every stored revision was derived from its immediate predecessor, every returned commit is stored, counters equal the sum of successful increments, no deadlock; non-trivial thread case = >= 1 preemption and >= 1 successful write commit"
+        '; distinct by program hash')
+ASSUMPTIONS = ['thread cases: preemption happens only at the scheduler\'s yield points (ZODB lock/condition operations, storage '
+               'file operations, source lines of the watched commit/poll/load functions); code between two yield points is atomic; '
+               'C-level races inside BTrees/persistent/pickle are not explored',
+               'sequential cases: interleaving of whole API calls in one thread']
 BUDGET = {'quick': {'examples': 6000, 'workers': 8},
           'thorough': {'examples': 30000, 'workers': 16}}
 
@@ -127,6 +132,8 @@ def execute(case):
 
 LEVEL_TEXT = ('Multi-connection programs are executed with a generated interleaving and compared read-by-read with an exact '
               'snapshot model; covers cache hits, storage loads after minimize, pooled connections reused after close, and '
-              'implicit/explicit boundaries on file, mapping and demo storages.')
-LEVEL_NOTE = ('Trusted: vlib/mvccprog model. The schedule quantifier of the property (threads at lock/file-I/O granularity) is NOT '
-              'explored: no deterministic scheduler was built (see DESIGN section 10); interleaving is between whole API calls.')
+              'implicit/explicit boundaries on file, mapping and demo storages. Thread programs run under a deterministic '
+              'scheduler with generated schedules; every read is judged against the connection\'s snapshot bound and the final history.')
+LEVEL_NOTE = ('Trusted: vlib/mvccprog model (sequential cases); vlib/sched.py scheduler and the event-log oracles of vlib/threadprog.py '
+              '(thread cases). Schedules are sampled, not enumerated: 2-4 threads, programs of 2-8 operations, preemption at lock, '
+              'file-operation and (watched functions) line granularity.')
